@@ -38,6 +38,16 @@ class GhostData:
     def pyvc_len(self):
         return self.size
 
+    # element-wise arithmetic with scalars keeps the size (contract of ndarray arithmetic)
+    def _scaled(self, other, opname):
+        return GhostData(self.size, (opname,), (self,))
+
+    def __mul__(self, o): return self._scaled(o, 'mul')
+    def __rmul__(self, o): return self._scaled(o, 'mul')
+    def __truediv__(self, o): return self._scaled(o, 'div')
+    def __neg__(self): return self._scaled(-1, 'neg')
+    def __pow__(self, o): return self._scaled(o, 'pow')
+
     def __repr__(self):
         return f"<GhostData {self.op[0]} size={self.size}>"
 
@@ -424,3 +434,28 @@ def same_block_set(b1, b2, with_slices=False):
             e = And(e, deep_eq(x[2], y[2]))
         return e
     return And(*[Or(*[eq(x, y) for y in b2]) for x in b1], *[Or(*[eq(x, y) for x in b1]) for y in b2])
+
+
+# ---------------------------------------------------------------------------------------------
+#  native (replay-mode) dense oracles: exact, because replay tensors hold small integers
+# ---------------------------------------------------------------------------------------------
+
+def legs_union_of(items):
+    """ items: list of (tensor, logical axis, conj?) describing the same space """
+    import yastn
+    legs = []
+    for t, k, cj in items:
+        l = t.get_legs(k)
+        legs.append(l.conj() if cj else l)
+    return yastn.legs_union(*legs)
+
+
+def dense(a, legs=None):
+    import numpy as _np
+    return _np.asarray(a.to_numpy(legs=legs or None))
+
+
+def same_array(x, y):
+    import numpy as _np
+    x, y = _np.asarray(x), _np.asarray(y)
+    return x.shape == y.shape and bool(_np.array_equal(x, y))
